@@ -1,10 +1,15 @@
 #!/bin/sh
-# usage: tools/try_patch.sh <abs patch.diff> <PROP> [extra check args]   -- apply to /repo, run the check, always revert
+# usage: tools/try_patch.sh <abs patch.diff> <PROP> [extra check args]
+# tries a seeded change in a scratch worktree of /repo (removed afterwards); /repo itself is not touched, so trials can run in parallel
 P=$1; shift
-git -C /repo apply "$P" || exit 9
-trap 'git -C /repo checkout -- . ' EXIT INT TERM HUP PIPE
-/verif/check "$@" --evidence /tmp/try_patch_evidence.json > /tmp/try_patch.out 2>&1
+W=$(mktemp -d /tmp/trypatch.XXXXXX); rmdir $W
+git -C /repo worktree add -q --detach $W HEAD || exit 9
+trap 'git -C /repo worktree remove --force '$W' 2>/dev/null; git -C /repo worktree prune' EXIT INT TERM HUP PIPE
+cp /repo/ethosu/*.so $W/ethosu/ 2>/dev/null
+git -C /repo diff | git -C $W apply 2>/dev/null   # carry over uncommitted changes of /repo (normally none)
+git -C $W apply "$P" || exit 9
+VERIF_REPO=$W /verif/check "$@" --evidence $W.evidence.json > $W.out 2>&1
 rc=$?
-git -C /repo checkout -- .
-grep -E "VIOLATION|KNOWN-FINDING|tier=|HARNESS-ERROR|INCONCLUSIVE" /tmp/try_patch.out | cut -c1-400 | head -${TRY_LINES:-6}
+grep -E "VIOLATION|KNOWN-FINDING|tier=|HARNESS-ERROR|INCONCLUSIVE" $W.out | cut -c1-400 | head -${TRY_LINES:-6}
+rm -f $W.out $W.evidence.json
 echo "exit=$rc"
